@@ -127,7 +127,13 @@ func itemPart(msgString string) string {
 // completeMessage applies the three producers in the order selected by order.
 func completeMessage(m *ast.DataMessage, h Hdr, fill map[string]interface{}, order int) *ast.DataMessage {
 	steps := [][3]int{{0, 1, 2}, {0, 2, 1}, {1, 0, 2}, {1, 2, 0}, {2, 0, 1}, {2, 1, 0}}[order%6]
+	// every second order also exercises all observers of the intermediate messages between the producer
+	// calls: whatever an observer computes (and might remember) must not leak into derived messages
+	touch := (order/6)%2 == 1
 	for _, s := range steps {
+		if touch {
+			touchMessage(m)
+		}
 		switch s {
 		case 0:
 			if len(fill) > 0 {
@@ -251,4 +257,21 @@ func elemInDomain(kind string, e model.Elem) bool {
 		return !math.IsNaN(f) && !math.IsInf(f, 0)
 	}
 	return true
+}
+
+// touchMessage calls every observer of a message (results discarded).
+func touchMessage(m *ast.DataMessage) {
+	_ = m.ToBytes()
+	_ = m.String()
+	_ = m.Variables()
+	_ = m.Header()
+	_ = m.SystemBytes()
+}
+
+// touchItem calls every observer of an item (results discarded).
+func touchItem(it ast.ItemNode) {
+	_ = it.ToBytes()
+	_ = itemString(it)
+	_ = it.Variables()
+	_ = it.Size()
 }
